@@ -103,7 +103,32 @@ func (dm *DMap) prepareEntry(e *env) storage.Entry {
 	return nt
 }
 
+// checkEncodedEntry verifies that the bytes received with DM.PUTENTRY are a
+// well-formed encoded entry for the given key. The storage engine stores them
+// verbatim and follows the embedded lengths on every later read, so a
+// malformed entry must be rejected here.
+func (dm *DMap) checkEncodedEntry(key string, value []byte) (err error) {
+	malformed := fmt.Errorf("%w: malformed entry", protocol.ErrInvalidArgument)
+	defer func() {
+		if r := recover(); r != nil {
+			// Decode ran out of the buffer.
+			err = malformed
+		}
+	}()
+
+	nt := dm.engine.NewEntry()
+	nt.Decode(value)
+	if nt.Key() != key || len(nt.Encode()) != len(value) {
+		return malformed
+	}
+	return nil
+}
+
 func (dm *DMap) putOnReplicaFragment(e *env) error {
+	if err := dm.checkEncodedEntry(e.key, e.value); err != nil {
+		return err
+	}
+
 	part := dm.getPartitionByHKey(e.hkey, partitions.BACKUP)
 	f, err := dm.loadOrCreateFragment(part)
 	if err != nil {
